@@ -175,6 +175,17 @@ let p_op (s : string) : xop = match toks s with
 let split_on (sep : char) (s : string) : string list =
   List.map String.trim (String.split_on_char sep s)
 
+let rec nat_of_int (i : int) : nat = if i <= 0 then O else S (nat_of_int (i - 1))
+let rec int_of_nat (n : nat) : int = match n with O -> 0 | S m -> 1 + int_of_nat m
+
+let str_ditem (it : ditem) : string = match it with
+  | DRec (id, i, pos, sz, r) ->
+    Printf.sprintf "%s:%d:%s+%s:%s" (string_of_n id) (int_of_nat i) (string_of_n pos) (string_of_n sz)
+      (String.concat "_" (String.split_on_char ' ' (str_record r)))
+  | DErr (id, n, e) ->
+    Printf.sprintf "%s:%d:err:%s" (string_of_n id) (int_of_nat n)
+      (match e with SEof -> "UnexpectedEof" | SInvalid -> "InvalidData" | SFuel -> "Fuel" | SEnd -> "End")
+
 (* ---------- running ---------- *)
 let run_xops (y0 : sys option) (first : string list) (ops : xop list) : string =
   let out = ref (List.rev first) in
@@ -206,25 +217,8 @@ let run_xops (y0 : sys option) (first : string list) (ops : xop list) : string =
               let items = (match !snap with Some k -> do_dump_iter k d | None -> []) in
               out := str_result (ResRead items) :: !out
             | Dump ->
-              (* RefDump: closed chunks then the open chunk, each file scanned from the start *)
-              let k = yy.y_core in
-              let ids = List.map (fun c -> c.cl_chunk.ck_id) k.k_closed @ [k.k_open.ck_id] in
-              let items = List.concat_map (fun id ->
-                  let data = (match disk_get id yy.y_disk with Some f -> f.f_data | None -> []) in
-                  let ((recs, _), e) = scan_file data in
-                  let rec go i off l = match l with
-                    | [] -> []
-                    | (r, sz) :: tl ->
-                      Printf.sprintf "%s:%d:%d+%s:%s" (string_of_n id) i off (string_of_n sz)
-                        (String.concat "_" (String.split_on_char ' ' (str_record r))) :: go (i + 1) (off + int_of_n sz) tl in
-                  let base = go 0 0 recs in
-                  let n = List.length recs in
-                  base @ (match e with
-                      | SEnd -> []
-                      | SEof -> [Printf.sprintf "%s:%d:err:UnexpectedEof" (string_of_n id) n]
-                      | SInvalid -> [Printf.sprintf "%s:%d:err:InvalidData" (string_of_n id) n]
-                      | SFuel -> [Printf.sprintf "%s:%d:err:Fuel" (string_of_n id) n])) ids in
-              out := (String.concat " " ("dump" :: items)) :: !out
+              (* RefDump: Model/Dump.v (closed chunks then the open chunk, each file scanned from the start) *)
+              out := (String.concat " " ("dump" :: List.map str_ditem (dump_ref yy.y_core yy.y_disk))) :: !out
             | Resident ->
               out := ("resident " ^ String.concat "," (List.map (fun (id, p) ->
                   Printf.sprintf "%s:%d" (str_pair id) (List.length p)) yy.y_core.k_sm.m_cache.ch_entries)) :: !out
@@ -309,8 +303,6 @@ let str_vis (v : vis) : string = match v with
   | VCallback (c, ok) -> Printf.sprintf "w cb %s %s" (string_of_n c) (if ok then "ok" else "fail")
   | VResult r -> "ret " ^ str_result r
 
-let rec nat_of_int (i : int) : nat = if i <= 0 then O else S (nat_of_int (i - 1))
-let rec int_of_nat (n : nat) : int = match n with O -> 0 | S m -> 1 + int_of_nat m
 
 (* all (state, visible event) pairs the worker can reach next through silent steps;
    [ok] is the result of the system call if the visible event is one *)
@@ -705,8 +697,19 @@ let () =
             (match kind with
              | "SEQ" -> do_seq rest
              | "IMG" -> do_img rest
+             | "DUMPDIR" ->
+               (* the standalone Dump on a directory image: Model/Dump.v dump_dir *)
+               let files = (match split_on '|' rest with [_; f] -> f | [f] -> f | _ -> "") in
+               let d = List.sort (fun a b -> compare (int64_of_n_cmp a.f_id) (int64_of_n_cmp b.f_id)) (List.map p_file (toks files)) in
+               String.concat " " ("dump" :: List.map str_ditem (dump_dir d))
              | "SPEC" -> do_spec rest
              | "ENC" -> do_enc rest
+             | "ENCF" ->
+               (* an earlier failed encode on the same thread leaves no trace *)
+               let r = String.trim rest in
+               (match String.index_opt r ' ' with
+                | Some i -> do_enc (String.sub r (i + 1) (String.length r - i - 1))
+                | None -> do_enc "")
              | "DEC" -> do_dec rest
              | "TRACE" -> do_trace rest
              | "LOCK" -> do_lock rest
